@@ -46,6 +46,11 @@ def run(res, tier, replay):
                 fo = cabfmt.Folder(("none",), [cabfmt.Member(bytes([97 + k]), data=b"") for k in range(1 if j == 0 and ncab == 1 else rng.choice([1, 2]))])
                 c = gen.CabCase(); c.folders = [fo]; c.files["in0.cab"] = cabfmt.build_single([fo], rng, with_ck=False); c.members = list(fo.members)
                 if ncab == 1: data = data[:rng.choice([0, 1, 3])]
+            elif i == 3 and j == 0:
+                # directed (own generator state): the small-window Quantum folder of the recorded finding qtm-small-window-wrap, found by search()
+                from vlib import cabfmt
+                fo = cabfmt.Folder(("qtm", 10), [cabfmt.Member(b"q0.bin", length=1000), cabfmt.Member(b"q1.bin", length=1500)])
+                c = gen.CabCase(); c.folders = [fo]; c.files["in0.cab"] = cabfmt.build_single([fo], random.Random(2), with_ck=True); c.members = list(fo.members)
             else:
                 c = gen.cab_single(rng, nfolders=1)
             offs.append(len(data)); cabs.append(c); data += c.files["in0.cab"]
